@@ -57,6 +57,7 @@ func VerifProgStore() {
 		}
 		s.runTx()
 		s.checkCommitted("after transaction")
+		s.assertPartition("after transaction")
 		s.checkSpace("after transaction")
 		s.checkStats("after transaction")
 	}
@@ -272,6 +273,29 @@ func VerifProgOverflow() {
 	s.allocRaw(n)
 	cfg.overflow = true
 	s.assertPartition("full file")
+	if verifBool("plainfirst") {
+		// without the overflow area a transaction that needs an overwrite page cannot commit on the full file;
+		// it must fail cleanly and release everything it acquired
+		snap0 := snapOf(s.f)
+		txp, perr := s.f.Begin()
+		verifAssert(perr == nil, "Begin succeeds")
+		nPlain := 1 + verifChoose(verifParam("maxplain", 4))
+		wp := s.m.clone()
+		for k := 0; k < nPlain; k++ {
+			pp, _ := txp.Page(wp.pages[k].id)
+			verifAssert(pp.SetBytes(verifBuf(9, uint8(k), 9)) == nil, "overwriting a live page succeeds")
+			wp.pages[k].b0, wp.pages[k].b1, wp.pages[k].last, wp.pages[k].raw = 9, uint8(k), 9, false
+		}
+		cerr := txp.Commit() // fails if no overwrite page can be allocated any more
+		if cerr == nil {
+			s.m = wp.clone()
+		} else {
+			assertSnapEqual(snap0, snapOf(s.f), "after the failed commit on the full file", true)
+		}
+		s.checkCommitted("after the commit attempt on the full file")
+		l := &s.f.locks
+		verifAssert(l.sharedCount == 0 && !l.pendingSet, "lock idle after the commit attempt on the full file")
+	}
 	before := snapOf(s.f)
 	statsBefore := s.f.stats
 
@@ -303,6 +327,22 @@ func VerifProgOverflow() {
 	}
 	s.checkCommitted("after the overflow transaction")
 	s.assertPartition("after the overflow transaction")
+	// an aborted transaction afterwards must not disturb the committed overflow pages
+	{
+		snapA := snapOf(s.f)
+		txa, aerr := s.f.BeginWith(TxOptions{EnableOverflowArea: verifBool("abortoverflow")})
+		verifAssert(aerr == nil, "Begin succeeds")
+		pa, _ := txa.Page(s.m.pages[len(s.m.pages)-1].id)
+		if !s.m.pages[len(s.m.pages)-1].raw {
+			_ = pa.SetBytes(verifBuf(8, 8, 8))
+		}
+		if verifBool("abortflush") {
+			_ = txa.Flush()
+		}
+		verifAssert(txa.Rollback() == nil, "Rollback succeeds")
+		assertSnapEqual(snapA, snapOf(s.f), "after an aborted transaction on the file with overflow pages", true)
+		s.checkCommitted("after an aborted transaction on the file with overflow pages")
+	}
 	s.reopen()
 	s.checkCommitted("after reopen")
 	s.assertPartition("after reopen")
@@ -321,5 +361,13 @@ func VerifProgOverflow() {
 	s.m = w2.clone()
 	s.checkCommitted("after freeing pages")
 	s.assertPartition("after freeing pages")
+	// the released overflow pages are gone for a reopened instance as well
+	snapR := snapOf(s.f)
+	availR := s.availNow()
+	s.reopen()
+	assertSnapEqual(snapR, snapOf(s.f), "reopened after the overflow area was released", true)
+	verifAssert(s.availNow() == availR, "reopened after the overflow area was released: same number of allocatable pages")
+	s.checkCommitted("reopened after the overflow area was released")
+	s.checkStats("reopened after the overflow area was released")
 	verifReach("end")
 }
